@@ -19,6 +19,7 @@ def run(chk):
     c04.instance(chk, "panic-long", "odd", 20, 22 if not thorough else 40, ["P", "NP", "WP"], base="N", only=PAN, hooks=("none", "statusbody"),
                  extra_invs=("DispatchOK",))
     chk.exhaustive = True
+    c04.recorded(chk, 2000 if thorough else 300, PAN)
     r = core.run_tlc("MC_Chain", cfg_text=c04.ccfg("all", 1, 2, ["N", "P"], emit=False, invs=("DispatchOK",), hooks=("status",),
                                                   D_PanicNoCommit=True), timeout=300)
     chk.expect_fails(r, "MC_Chain[D_PanicNoCommit]", "DispatchOK")
